@@ -29,6 +29,7 @@ EXPLANATION = (
     " (R1, foreign-writer) the in-flight attributes of a protocol object are assigned only by the protocol classes' own methods, never through another reference (e.g. protocol.command = ... in execute)."
     ' (R10, shared with C05.R5) every scheduled timeout waits self.timeout: no transmission is abandoned, and the lock handed on, while its answer is still due.'
     ' (R11, shared with C08.R6) no loop callback schedules a method of the protocol object after completing the response future.'
+    " (R12, shared with C04.R11) each caller's own request is what goes out under its lock, first time and on every retry."
 )
 
 INFLIGHT = ("command", "response_future", "_partial_data", "_partial_missing", "_timer")
@@ -54,6 +55,9 @@ def check(ctx: Ctx, rep: Report):
     rep.rule("C06.R11", "nothing is scheduled on the protocol object after a request was completed: a deferred close / timeout would cancel the next lock holder's request (shared with C08.R6)", 6)
     from .proto import no_deferred_after_completion
     no_deferred_after_completion(ctx, rep, "C06.R11")
+    rep.rule("C06.R12", "each caller's own request is what goes out under its lock, first time and on every retry (shared with C04.R11)", 2)
+    from .proto import retry_resends_own_command
+    retry_resends_own_command(ctx, rep, "C06.R12")
     foreign_writers(ctx, rep, "C06.R1")
     ms = ctx.memo("maysuspend", lambda: MaySuspend(ctx.prog, ctx.res))
     for ci in proto_classes(ctx):
